@@ -211,8 +211,9 @@ def run(prop, tier, seed):
             if st_self is None:
                 st_self = selftest(prop, r['ndjson'], workdir)
             os.remove(r['ndjson'])
-        if prop in ('C01', 'C03', 'C05', 'C10', 'C12', 'C16', 'C18'):
-            nd, nscen = S.run_scenarios('C16' if prop == 'C18' else prop, tier, seed, workdir)
+        if prop in ('C01', 'C03', 'C05', 'C10', 'C12', 'C13', 'C16', 'C18'):
+            # C13 is also judged on the TCP-MD5 fault scenarios of C12 (they contain operator stops and starts)
+            nd, nscen = S.run_scenarios({'C18': 'C16', 'C13': 'C12'}.get(prop, prop), tier, seed, workdir)
             if prop == 'C18':           # the counters are also judged on every hostile-input run of the C10 driver
                 nd2, nscen2 = S.run_scenarios('C10', tier, seed, workdir)
                 with open(nd, 'a') as fa, open(nd2) as fb:
